@@ -153,6 +153,16 @@ def cases(draw, tier):
     if g.integer(1, 8) == 1:
         tree, kind = g.mismatch(depth - 1)
         return {"tree": tree, "mismatch": kind}
+    if g.integer(1, 12) == 1:
+        # block-diagonal assembly of operands that are themselves block diagonal with multiplicities
+        def small():
+            return g.op(g.integer(1, 3), g.integer(1, 3), max(depth - 2, 0))
+        inner = {"k": "bd", "ch": [small(), small()], "mult": [g.integer(1, 3), g.integer(1, 2)]}
+        ch = [inner, small()] if g.boolean() else [small(), inner]
+        if g.integer(1, 3) == 1:
+            ch.append({"k": "bd", "ch": [small()], "mult": [2]})
+        tree = {"k": "bd", "ch": ch, "mult": None}  # mult None: assembled through cola.block_diag
+        return {"tree": tree, "x": g.operand(IR.denote(tree).shape[1], ranks=(1, 2))}
     r, c = TP.target_shape(g, maxn=6)
     root = g.pick([k for k in g.comp_any + (g.comp_sq if r == c else []) if g.ok(k) and g.feasible(k, r, c)])
     tree = getattr(g, "k_" + root)(r, c, depth - 1)
